@@ -60,12 +60,14 @@ type GArg struct {
 }
 
 type GField struct {
-	Name    string
-	Type    *TRef
-	Args    []*GArg
-	Default string // input fields only
-	Dirs    string
-	Desc    string
+	Comment     string // "# ..." line before the field
+	ArgComments bool   // arguments on their own lines, with # comments between them
+	Name        string
+	Type        *TRef
+	Args        []*GArg
+	Default     string // input fields only
+	Dirs        string
+	Desc        string
 }
 
 type GType struct {
@@ -440,6 +442,12 @@ func GenSchema(r *Rng) *GSchema {
 		if r.Chance(1, 10) {
 			f.Dirs = " @deprecated"
 		}
+		if r.Chance(1, 8) {
+			f.Comment = Pick(r, []string{"note", " padded comment ", "why: history"})
+		}
+		if len(f.Args) > 0 && r.Chance(1, 4) {
+			f.ArgComments = true
+		}
 		return f
 	}
 	// interfaces, possibly implementing earlier ones
@@ -673,6 +681,10 @@ func genArg(r *Rng, s *GSchema, nm *namer, sc map[string]bool) *GArg {
 	a.Type = wrap(r, base)
 	if r.Chance(2, 5) {
 		a.Default = GenLiteral(r, s, a.Type, 2, false)
+		if r.Chance(1, 12) {
+			// the loader does not check a default against its type: such a schema loads
+			a.Default = Pick(r, []string{`"one"`, "1.5", "true", "[1]", "{k: 1}", "RED"})
+		}
 	}
 	return a
 }
@@ -772,9 +784,25 @@ func renderArgs(args []*GArg) string {
 func renderFields(b *strings.Builder, fs []*GField, input bool) {
 	for _, f := range fs {
 		b.WriteString(renderDesc(f.Desc, "  "))
+		if f.Comment != "" {
+			b.WriteString("  # " + f.Comment + "\n")
+		}
 		b.WriteString("  " + f.Name)
 		if !input {
-			b.WriteString(renderArgs(f.Args))
+			if f.ArgComments && len(f.Args) > 0 {
+				b.WriteString("(\n")
+				for _, a := range f.Args {
+					b.WriteString("    #  about " + a.Name + "\n")
+					p := "    " + a.Name + ": " + a.Type.String()
+					if a.Default != "" {
+						p += " = " + a.Default
+					}
+					b.WriteString(p + a.Dirs + "\n")
+				}
+				b.WriteString("  )")
+			} else {
+				b.WriteString(renderArgs(f.Args))
+			}
 		}
 		b.WriteString(": " + f.Type.String())
 		if input && f.Default != "" {
@@ -785,6 +813,9 @@ func renderFields(b *strings.Builder, fs []*GField, input bool) {
 }
 
 func (t *GType) render(b *strings.Builder) {
+	if len(t.Name)%5 == 0 {
+		b.WriteString("# about " + t.Name + "\n")
+	}
 	b.WriteString(renderDesc(t.Desc, ""))
 	switch t.Kind {
 	case "SCALAR":
@@ -955,8 +986,16 @@ func InjectSchemaFaults(r *Rng, s *GSchema, n int) {
 		return nil
 	}
 	for i := 0; i < n; i++ {
-		k := r.Intn(20)
+		k := r.Intn(22)
 		switch k {
+		case 20, 21:
+			// an invalid extension of a type the prelude defines
+			s.Extra = append(s.Extra, Pick(r, []string{
+				"extend type __Type {\n  owner: Teamx\n}\n",
+				"extend type __Field {\n  extra(arg: Nopey): String\n}\n",
+				"extend type __Schema {\n  name: String\n  name: String\n}\n",
+			}))
+			s.Faults = append(s.Faults, "bad-prelude-extension")
 		case 18, 19:
 			BreakCovariance(r, s)
 		case 0:
